@@ -15,6 +15,7 @@ import (
 	"io"
 	"math/rand"
 	"net"
+	"strings"
 	"sync"
 	"time"
 
@@ -314,6 +315,40 @@ func c05Net(tier string, rng *rand.Rand, res *Result) {
 					continue
 				}
 				cands = append(cands, nc{note: fmt.Sprintf("request v%d %s with argument buffer % x", ver, fn, trunc(hb)), body: mkReq(ver, fn, hb, int8(rng.Intn(2)))})
+			}
+		}
+	}
+	// (b') well-formed requests whose META data is hostile: every message-type bit (hash, grid, dyed, sample, async, set name,
+	// trace, unknown bits) combined with the status / context entries the framework itself interprets on the receive path
+	// (trace key, dyeing key, set name, grid ...) set to empty, separator-less, over-segmented, huge and binary values
+	{
+		odd := []string{"", "abc", "|", "||", "a|b", "a|b|c", "a|b|c|d", "1|2|3|4|5|6|7|8", "-1", "999999999999999999999", strings.Repeat("x", 70000), "\x00\xff|\xfe", "%s%d%v", " ", "\n"}
+		keys := []string{"STATUS_TRACE_KEY", "STATUS_DYED_KEY", "STATUS_GRID_KEY", "STATUS_SETNAME_VALUE", "STATUS_SAMPLE_KEY", "STATUS_RESULT_CODE", "STATUS_RESULT_DESC", "TARS_DYED_KEY", "nosuch"}
+		types := []int32{0x100, 0x04, 0x02, 0x80, 0x08, 0x01, 0x10, 0x1ff, -1, 0x7fffffff, 0x100 | 0x04, 0x200, 0x40000000}
+		cnt := 0
+		for ti, mt := range types {
+			for ki, k := range keys {
+				for oi, v := range odd {
+					if tier != "thorough" && (ti+ki+oi)%4 != 0 && !(mt == 0x100 && k == "STATUS_TRACE_KEY") && !(mt == 0x04 && k == "STATUS_DYED_KEY") {
+						continue
+					}
+					v2 := strings.NewReplacer("\\x00", "\x00", "\\xff", "\xff", "\\xfe", "\xfe", "\\n", "\n").Replace(v)
+					rq := requestf.RequestPacket{IVersion: 1, CPacketType: int8(cnt % 2), IMessageType: mt, IRequestId: int32(1000 + cnt), SServantName: "verif.obj", SFuncName: []string{"tars_ping", "notify"}[cnt%2],
+						SBuffer: []int8{}, ITimeout: 3000, Context: map[string]string{k: v2}, Status: map[string]string{k: v2}}
+					if cnt%2 == 1 {
+						for _, b := range argOK {
+							rq.SBuffer = append(rq.SBuffer, int8(b))
+						}
+					}
+					buf := codec.NewBuffer()
+					rq.WriteTo(buf)
+					note := v
+					if len(note) > 40 {
+						note = note[:40] + "..."
+					}
+					cands = append(cands, nc{note: fmt.Sprintf("well-formed request, message type %#x, status/context[%s] = %q", mt, k, note), body: append([]byte(nil), buf.ToBytes()...)})
+					cnt++
+				}
 			}
 		}
 	}
